@@ -124,6 +124,34 @@ class PreprocessField(Contract):
         out["no_null_shown_when_ignore_na"] = SBool(z3.Implies(z3.And(core.as_z3_bool(ign), result.sel(i)), z3.Not(result.null(i))))
         return out
 
+    def concretize(self, rec):
+        def thunk():
+            """a null and a violating value on rows that carry the SAME index label: the violating row is still checked"""
+            import warnings
+
+            import numpy as np
+            import pandas as pd
+            import pandera as pa
+
+            warnings.simplefilter("ignore")
+            obs, bad = {}, False
+            for label, index in (("repeated labels", [0, 0, 1]), ("unique labels", [0, 1, 2])):
+                s = pd.Series([np.nan, -5.0, 3.0], index=index)
+                seen = pa.Check.gt(0)._backend if False else None
+                from pandera.backends.pandas.checks import PandasCheckBackend
+
+                got = PandasCheckBackend(pa.Check.gt(0)).preprocess_field(s).tolist()
+                try:
+                    pa.SeriesSchema(float, pa.Check.gt(0), nullable=True).validate(s)
+                    verdict = "accepted"
+                except pa.errors.SchemaError:
+                    verdict = "rejected"
+                obs[label] = {"check function sees": got, "verdict on [nan, -5, 3]": verdict}
+                bad = bad or got != [-5.0, 3.0] or verdict != "rejected"
+            return bad, obs
+
+        return thunk
+
 
 class ApplyField(Contract):
     """element_wise=True  <=>  the vectorised check `lambda s: s.map(f)`;  otherwise f(series) itself."""
